@@ -19,7 +19,7 @@ func classifyFrame(b []byte) (kind string, id uint32, seq int32) {
 	var p interface{}
 	var err error
 	if panicked, _ := guard(func() { p, err = pdu.ReadPDU(bytes.NewReader(b)) }); panicked {
-		return "fatal", 0, 0
+		return "panic", 0, 0 // (ReadPDU itself panics on these octets: Watch will die on them)
 	}
 	switch {
 	case err == nil && p != nil:
@@ -75,6 +75,72 @@ func sweepStatuses() []uint32 {
 		}
 	}
 	return append(out, 0x0F, 0x400, 0x5FF, 0x7FFFFFFF, 0x80000000, 0xFFFFFFFF)
+}
+
+// genHostileFrame: the pdu engine's hostile inbound frames (C04 / C11 / C13) carrying seq: hand-laid submit_sm / deliver_sm /
+// submit_multi bodies (UDHL lies, elements overrunning UDHL, a decoded header of ~500 octets behind a tiny sm_length, booleans
+// other than 0/1, sm_length beyond 140 ...), the minimal "UDH longer than sm_length" deliver_sm, valid mandatory parameters
+// followed by raw TLVs (empty / undersized standard tags, duplicates), a body that stops early.  What they are to the
+// connection (well-formed / undecodable / fatal) is asked of the implementation's own ReadPDU (classifyFrame).
+func genHostileFrame(r *Rng, ts []pduType, seq int32) (f []byte, class string) {
+	switch r.Intn(5) {
+	case 0:
+		// deliver_sm, UDHI set, sm_length 3, a 6-octet UDH (UDHL 5: one element of 3 octets)
+		body := []byte{0, 1, 1, '1', 0, 1, 1, '2', 0, 0x40, 0, 0, 0, 0, 0, 0, 0, 0, 3, 5, 0x00, 0x03, 1, 2, 3}
+		if r.Bool() {
+			body[len(body)-7] = byte(r.Intn(5)) // sm_length 0..4
+		}
+		id := uint32(r.Pick([]int{5, 4}))
+		return rawFrame(id, 0, seq, body), "udh-longer-than-sm_length"
+	case 1:
+		p := genPDU(r, ts[r.Intn(len(ts))], modeDomain)
+		v := reflect.ValueOf(p).Elem()
+		for j := 0; j < v.NumField(); j++ {
+			if _, ok := v.Field(j).Interface().(pdu.Tags); ok {
+				v.Field(j).Set(reflect.Zero(v.Field(j).Type()))
+			}
+		}
+		if g := expectedFrame(p, seq); g != nil && len(g) > 16 {
+			g = append(append([]byte(nil), g...), rawTLVs(r)...)
+			binary.BigEndian.PutUint32(g, uint32(len(g)))
+			return g, "valid+raw-tlvs"
+		}
+		fallthrough
+	case 2:
+		// a well-formed body that stops early (inside a later field)
+		p := genSendable(r, ts, false, 600)
+		if g := expectedFrame(p, seq); g != nil && len(g) > 18 {
+			g = append([]byte(nil), g[:17+r.Intn(len(g)-17)]...)
+			binary.BigEndian.PutUint32(g, uint32(len(g)))
+			return g, "early-stop"
+		}
+		fallthrough
+	default:
+		multi := r.Intn(3) == 0
+		id := uint32(r.Pick([]int{4, 5}))
+		if multi {
+			id = 0x21
+		}
+		return rawFrame(id, 0, seq, handBody(r, multi)), "hand-laid"
+	}
+}
+
+// genBadFrameOfID: an undecodable body (octets without a terminator) behind an intact header with the given command_id
+// and sequence number; nil when the implementation decodes every such body for that id (a header-only type).
+func genBadFrameOfID(r *Rng, id uint32, seq int32) []byte {
+	for tries := 0; tries < 40; tries++ {
+		f := make([]byte, 16+1+r.Intn(12))
+		binary.BigEndian.PutUint32(f[0:4], uint32(len(f)))
+		binary.BigEndian.PutUint32(f[4:8], id)
+		binary.BigEndian.PutUint32(f[12:16], uint32(seq))
+		for i := 16; i < len(f); i++ {
+			f[i] = 1 + byte(r.Intn(255))
+		}
+		if k, _, q := classifyFrame(f); k == "bad" && q == seq {
+			return f
+		}
+	}
+	return nil
 }
 
 // genUnsolicited: a well-formed PDU of a random registered type carrying seq.
